@@ -71,6 +71,7 @@ let () =
   let bump t k = Hashtbl.replace t k (1 + try Hashtbl.find t k with Not_found -> 0) in
   let dead = ref false and spec_dead = ref false and disc_dead = ref false in
   let ospec = ref ospec0 and pend_before = ref [] and srv_seen = ref [] in
+  let hyp_false = ref false and reuse_seen = ref false and cd_seen = ref false in
   let printed = Hashtbl.create 64 in
   let report sg text =
     let n = try Hashtbl.find printed sg with Not_found -> 0 in
@@ -90,7 +91,7 @@ let () =
       match toks with
       | "C" :: _variant :: kvs ->
         flush_case (); incr case_no; op_no := 0; dead := false; spec_dead := false; disc_dead := false;
-        ospec := ospec0; pend_before := []; srv_seen := [];
+        ospec := ospec0; pend_before := []; srv_seen := []; hyp_false := false; reuse_seen := false; cd_seen := false;
         let kv k = let p = k ^ "=" in
           let e = List.find (fun s -> String.length s > String.length p && String.sub s 0 (String.length p) = p) kvs in
           int_of_string (String.sub e (String.length p) (String.length e - String.length p)) in
@@ -113,10 +114,24 @@ let () =
         if impl_obs = "P" then bump extra "outcome_panic";
         let o = parse_op name args in
         let c = match !g with Some c -> c | None -> failwith "op before case" in
+        (* the class of the known finding: a client is created after a client was dropped *)
+        (match o with
+         | Cd _ when impl_obs = "ok" -> cd_seen := true
+         | Cc _ when impl_obs = "ok" && !cd_seen -> reuse_seen := true
+         | _ -> ());
         (* ---- the concrete model (the tie) ---- *)
         if not !dead then begin
           let next = ref [] in
           let first = ref None in
+          (* the hypothesis of c11_routing_under_send_ok, evaluated on the (agreeing) model *)
+          if List.exists (fun st -> not (step_send_okb c st o)) !cands then begin
+            bump extra "send_hypothesis_false_ops";
+            if not !hyp_false then begin hyp_false := true; bump extra "send_hypothesis_false_cases" end;
+            if not !reuse_seen then begin
+              incr mm_spec;
+              report "spechyp" (Printf.sprintf "MISMATCH case=%d op=%d kind=spec what=send_hypothesis_outside_known_class line=[%s] spec=response-sent-into-a-connection-of-the-requesting-client impl=%s\n" !case_no !op_no line impl_obs)
+            end
+          end;
           List.iter (fun s ->
               let peers = (match o with Pr k -> client_peers s k | Sr j -> server_peers s j | _ -> []) in
               let ords = if List.length peers <= 1 then [peers] else take 24 (perms peers) in
